@@ -358,10 +358,21 @@ func (c *xsyncMap) DeleteExpired() {
 	c.items.Range(func(k string, v interface{}) bool {
 		i := v.(item)
 		if i.expiredWithNow(now) {
-			c.items.Delete(k)
-			if ec != nil {
-				evictedItems = append(evictedItems, kv{k, i.v})
-			}
+			// Re-validate under the bucket lock: the key may have been
+			// updated or removed since it was visited.
+			c.items.Compute(k, func(value interface{}, loaded bool) (interface{}, bool) {
+				if !loaded {
+					return nil, true
+				}
+				cur := value.(item)
+				if !cur.expiredWithNow(now) {
+					return cur, false
+				}
+				if ec != nil {
+					evictedItems = append(evictedItems, kv{k, cur.v})
+				}
+				return nil, true
+			})
 		}
 		return true
 	})
